@@ -171,11 +171,13 @@ theorem copy_identity_matching (E : Env) (φ : Id → Id) (h : CopyOk E φ) :
     have h1 : 0 < (leafPass E []).us.count s := List.count_pos_iff.mpr hs
     simp at this
     exact List.count_pos_iff.mp (by omega)
-  have hi := innerLoop_copy (innerCond E (leafPass E []).acc) φ (leafPass E []).us
+  have hlm : innerLm E [] (leafPass E []).acc = (leafPass E []).acc := by simp [innerLm]
+  have hi := innerLoop_copy (innerCond E (innerLm E [] (leafPass E []).acc)) φ (leafPass E []).us
     ⟨(leafPass E []).us, (leafPass E []).ut, []⟩ rfl g2
     (by
       intro s hs
       simp only [innerCond, Bool.and_eq_true]
+      rw [hlm]
       exact ⟨h.twinType s, h.innerTwin _ (fun l hl hli => g5 l hl hli) s (hsub s hs)⟩)
     (by intro p hp; simp at hp)
   have hall : ∀ p ∈ (matchAll E []).all, p.2 = φ p.1 := by
@@ -233,6 +235,7 @@ def copyEnv : Env where
   innerSim := fun _ _ _ => true
   moves := fun _ _ _ _ => []
   isUpdate := fun _ _ => false
+  countPre := false
 
 example : CopyOk copyEnv (· + 10) where
   tgtLeaves := rfl
@@ -334,6 +337,8 @@ def witS : Tree where
   nel := fun _ => 0
   eqc := fun i => i
   idk := fun i => if i == 1 then 5 else 0
+  txt := fun i => i
+  lay := fun _ => 0
 
 def witT : Tree where
   root := 10
@@ -347,8 +352,10 @@ def witT : Tree where
   nel := fun _ => 0
   eqc := fun i => if i == 12 then 2 else i + 100
   idk := fun i => if i == 11 then 6 else 0
+  txt := fun i => i
+  lay := fun _ => 0
 
-def witP (fix : Bool) : Params := ⟨1, (3, 5), (4, 5), (2, 5), 4, fix⟩
+def witP (fix : Bool) : Params := ⟨1, (3, 5), (4, 5), (2, 5), 4, fix, false⟩
 def witDice : Id → Id → Nat := fun _ _ => 2
 
 /-- **`delta_empty_imp_equal` is false for the algorithm as it stands**: the delta is empty, the roots are not equal.
@@ -361,6 +368,277 @@ theorem delta_empty_imp_equal_counterexample :
 
 /-- the partial theorem's hypothesis is satisfiable (by the very same instance) -/
 example : (diffTrees (witP false) witS witT witDice [] true).edits = [] := by decide +kernel
+
+/-! ### equal ⇒ empty delta, on trees -/
+
+/-- **equal ⇒ empty delta, the part that holds** (`…_partial`): for a well-formed tree `S` and a node-for-node copy `T`
+    (same classes, same-type keys, non-expression leaves, `==` classes and rendered text, i.e. equality in the
+    structural, case-SENSITIVE sense) the delta is empty and the matching is the identity — for every `f ≤ 1`, every `t`,
+    assuming only the dice axiomatisation `DiceOk` (validated by the harness on every shipped pair) instead of the
+    oracle facts of `copy_identity_matching`.  NOT covered: trees that are merely `==` (`Expr.__eq__` lower-cases
+    string arguments) — see the counterexample. -/
+theorem equal_imp_delta_empty_partial (P : Params) (S T : Tree) (dice : Id → Id → Nat) (φ : Id → Id) (top : Nat)
+    (hc : IsCopy S T φ) (hw : TreeWF S) (hd : DiceOk S T dice top) (hf : P.f ≤ top) (hhi : P.hi.1 ≤ P.hi.2) :
+    (diffTrees P S T dice [] true).edits = [] ∧
+      (∀ p ∈ (diffTrees P S T dice [] true).matching, p.2 = φ p.1) ∧
+      (∀ x ∈ S.index, (x, φ x) ∈ (diffTrees P S T dice [] true).matching) := by
+  have hok := copyOk_of_isCopy P S T dice φ top hc hw hd hf hhi
+  have h1 := copy_identity_matching (envOf P S T dice) φ hok
+  have h2 := copy_delta_empty (envOf P S T dice) φ hok
+    (fun x _ => isUpdateOf_twin hc x)
+    (fun m u x hm hall hx => movesOf_twin hc hw m u x hm hall hx)
+  exact ⟨by simpa [diffTrees] using h2, h1.2.2.1, h1.2.2.2⟩
+
+/-- `SELECT Foo(x)` vs `SELECT FOO(x)` as model trees: Select(0) → Anonymous(1) → Column(2) → Identifier(3).  Every node is
+    `==` its counterpart (same `eqc`), but the Anonymous names differ in case: different `_is_same_type` key, different
+    non-expression leaves, different text. -/
+def caseS : Tree where
+  root := 0
+  size := 5
+  cls := fun i => i
+  ty := fun i => i
+  parent := fun i => match i with | 1 => some 0 | 2 => some 1 | 3 => some 2 | _ => none
+  kids := fun i => match i with | 0 => [1] | 1 => [2] | 2 => [3] | _ => []
+  ignored := fun i => i == 3
+  updatable := fun i => i == 2
+  nel := fun i => i
+  eqc := fun i => i
+  idk := fun _ => 0
+  txt := fun i => i
+  lay := fun _ => 0
+
+def caseT : Tree where
+  root := 10
+  size := 5
+  cls := fun i => i - 10
+  ty := fun i => if i == 11 then 77 else i - 10
+  parent := fun i => match i with | 11 => some 10 | 12 => some 11 | 13 => some 12 | _ => none
+  kids := fun i => match i with | 10 => [11] | 11 => [12] | 12 => [13] | _ => []
+  ignored := fun i => i == 13
+  updatable := fun i => i == 12
+  nel := fun i => if i == 11 then 77 else i - 10
+  eqc := fun i => i - 10
+  idk := fun _ => 0
+  txt := fun i => if i == 11 || i == 10 then i + 70 else i - 10
+  lay := fun _ => 0
+
+/-- **`equal ⇒ empty delta` is false for `==`-equality**: the roots are `==` (same class) yet the delta is
+    Remove(Anonymous) + Insert(Anonymous) + Move(Column) -/
+theorem equal_imp_delta_empty_counterexample :
+    caseS.eqc caseS.root = caseT.eqc caseT.root ∧
+    (diffTrees (witP true) caseS caseT witDice [] true).edits = [.remove 1, .insert 11, .move 2 12] := by
+  decide +kernel
+
+/-- the hypotheses of `equal_imp_delta_empty_partial` are satisfiable: the witness source tree against its shifted copy -/
+def witCopy : Tree where
+  root := 10
+  size := 5
+  cls := fun i => i - 10
+  ty := fun i => i - 10
+  parent := fun i => match i with | 11 => some 10 | 12 => some 11 | 13 => some 11 | _ => none
+  kids := fun i => match i with | 10 => [11] | 11 => [12, 13] | _ => []
+  ignored := fun i => i == 13
+  updatable := fun i => i == 12
+  nel := fun _ => 0
+  eqc := fun i => i - 10
+  idk := fun i => if i == 11 then 5 else 0
+  txt := fun i => i - 10
+  lay := fun _ => 0
+
+example : TreeWF witS := wf_imp witS (by decide +kernel)
+
+/-- **delta empty ⇒ equal** (tree model, `==` classes as shipped), with the identifier-children comparison of fix f25f43a
+    (`cmpIdents`, extracted from the source as `comparesIgnoredLeaves`).  For well-formed trees, same-typed well-formed
+    caller matchings and ANY similarity oracle: if the delta is empty then the two roots are `==`.
+    Assumed about the real `Expr.__eq__`: the structural congruence `EqcCongr` (validated on every shipped pair) and that
+    the same-type key refines the class.
+    THE REMAINING GAP, stated as hypothesis `hlay`: kept pairs have the same child layout (argument keys).  diff.py never
+    compares argument keys, and without `hlay` the statement is false — `delta_empty_imp_equal_argkey_counterexample`
+    (`x IN (y)` vs `x IN y`). -/
+theorem delta_empty_imp_equal (P : Params) (S T : Tree) (dice : Id → Id → Nat) (pre : List (Id × Id))
+    (hci : P.cmpIdents = true) (hwS : TreeWF S) (hwT : TreeWF T) (hrS : S.root ∈ S.index)
+    (hp : PreOk (envOf P S T dice) pre) (hpty : ∀ p ∈ pre, S.ty p.1 = T.ty p.2)
+    (hty : ∀ s t, S.ty s = T.ty t → S.cls s = T.cls t) (hcg : EqcCongr S T)
+    (h : (diffTrees P S T dice pre true).edits = [])
+    (hlay : ∀ p ∈ (diffTrees P S T dice pre true).matching, S.lay p.1 = T.lay p.2) :
+    S.eqc S.root = T.eqc T.root := by
+  have hS : (envOf P S T dice).srcIndex.Nodup := hwS.bfsNodup.filter _
+  have hT : (envOf P S T dice).tgtIndex.Nodup := hwT.bfsNodup.filter _
+  obtain ⟨hu1, hu2, hpairs⟩ := delta_empty_imp_equal_partial P S T dice pre h
+  have hmall : (diffTrees P S T dice pre true).matching = (matchAll (envOf P S T dice) pre).all := rfl
+  rw [hmall] at hpairs hlay
+  obtain ⟨hm1, hm2⟩ := matching_injective (envOf P S T dice) pre hS hT hp
+  have hidx := matched_in_index (envOf P S T dice) pre hS hT hp
+  have hsame := (matched_same_type (envOf P S T dice) pre).2 (by
+    intro p hpp; simpa [envOf] using hpty p hpp)
+  have hsurjT : ∀ y ∈ T.index, y ∈ snds (matchAll (envOf P S T dice) pre).all := by
+    intro y hy
+    have hc := matchAll_count_tgt (envOf P S T dice) pre hT hp y
+    rw [hu2, hT.count] at hc
+    have hy' : y ∈ (envOf P S T dice).tgtIndex := hy
+    simp only [hy', if_true, List.count_nil, Nat.zero_add] at hc
+    exact List.count_pos_iff.mp (by omega)
+  have hident := kept_pairs_identical S T (matchAll (envOf P S T dice) pre).all hwS hwT hm1 hm2
+    (fun p hp' => hidx p hp') hsurjT
+    (fun p hp' => hty _ _ (by simpa [envOf] using hsame p hp'))
+    (fun p hp' => (hpairs p hp').1)
+    (fun p hp' => (hpairs p hp').2.1)
+    (fun p hp' => (hpairs p hp').2.2.1 hci)
+    hlay
+    (fun p hp' => by have := (hpairs p hp').2.2.2; rwa [hu1] at this)
+    hcg
+  -- the root's partner is the target root
+  have hroot : S.root ∈ fsts (matchAll (envOf P S T dice) pre).all := by
+    have hc := matchAll_count_src (envOf P S T dice) pre hS hp S.root
+    rw [hu1, hS.count] at hc
+    have hr' : S.root ∈ (envOf P S T dice).srcIndex := hrS
+    simp only [hr', if_true, List.count_nil, Nat.zero_add] at hc
+    exact List.count_pos_iff.mp (by omega)
+  obtain ⟨q, hq, hq1⟩ := List.mem_map.mp hroot
+  obtain ⟨r, t0⟩ := q
+  simp only at hq1; subst hq1
+  have hid := hident _ hq
+  simp only at hid
+  have hmv := (hpairs _ hq).2.2.2
+  have hidb : identical S T S.root t0 = true := by simp [identical, hid]
+  simp only [movesOf, hidb, Bool.or_true, if_true] at hmv
+  have hpm : parentMoved S T (matchAll (envOf P S T dice) pre).all S.root t0 = false := by
+    cases hpmv : parentMoved S T (matchAll (envOf P S T dice) pre).all S.root t0 with
+    | false => rfl
+    | true => simp [hpmv] at hmv
+  simp only [parentMoved, hwS.rootParent] at hpm
+  have ht0 : t0 = T.root := by
+    rcases hwT.parent t0 (hidx _ hq).2 with ⟨p', hp', _⟩ | ⟨_, hr⟩
+    · simp [hp'] at hpm
+    · exact hr
+  rw [hid, ht0]
+
+/-- `SELECT x IN (y)` (In: this=x, expressions=[y]) vs `SELECT x IN y` (In: this=x, field=y) as model trees:
+    Select(0) → In(1) → [Column x (2), Column y (3)]; only the layout class of the In node differs -/
+def akS : Tree where
+  root := 0
+  size := 5
+  cls := fun i => i
+  ty := fun i => i
+  parent := fun i => match i with | 1 => some 0 | 2 => some 1 | 3 => some 1 | _ => none
+  kids := fun i => match i with | 0 => [1] | 1 => [2, 3] | _ => []
+  ignored := fun _ => false
+  updatable := fun i => i == 2 || i == 3
+  nel := fun _ => 0
+  eqc := fun i => i
+  idk := fun _ => 0
+  txt := fun i => i
+  lay := fun _ => 0
+
+def akT : Tree where
+  root := 10
+  size := 5
+  cls := fun i => i - 10
+  ty := fun i => i - 10
+  parent := fun i => match i with | 11 => some 10 | 12 => some 11 | 13 => some 11 | _ => none
+  kids := fun i => match i with | 10 => [11] | 11 => [12, 13] | _ => []
+  ignored := fun _ => false
+  updatable := fun i => i == 12 || i == 13
+  nel := fun _ => 0
+  eqc := fun i => if i == 12 || i == 13 then i - 10 else i + 100
+  idk := fun _ => 0
+  txt := fun i => i - 10
+  lay := fun i => if i == 11 then 9 else 0
+
+def akDice : Id → Id → Nat := fun s t => if s + 10 == t then 2 else 0
+
+/-- **the gap is real**: with the identifier fix in place the delta of this pair is still empty although the roots are
+    not `==`; the only difference is the In node's layout class (hypothesis `hlay` of `delta_empty_imp_equal` fails) -/
+theorem delta_empty_imp_equal_argkey_counterexample :
+    (diffTrees (witP true) akS akT akDice [] true).edits = [] ∧
+    akS.eqc akS.root ≠ akT.eqc akT.root ∧ akS.lay 1 ≠ akT.lay 11 ∧ akS.wf = true ∧ akT.wf = true := by
+  decide +kernel
+
+/-! ### Move generation -/
+
+/-- the modelled `_lcs` returns a common subsequence: a subsequence of the first sequence, aligned elementwise
+    (`equal(l, r)`) with a subsequence of the second -/
+theorem lcs_is_common_subseq (eq : Id → Id → Bool) (as bs : List Id) :
+    List.Sublist (lcs eq as bs) as ∧ ∃ bs', List.Sublist bs' bs ∧ Aligned eq (lcs eq as bs) bs' :=
+  SqlglotModel.Diff.lcs_is_common_subseq eq as bs
+
+/-- … and a longest one -/
+theorem lcs_maximal (eq : Id → Id → Bool) (as bs l l' : List Id)
+    (h1 : List.Sublist l as) (h2 : List.Sublist l' bs) (h3 : Aligned eq l l') : l.length ≤ (lcs eq as bs).length :=
+  SqlglotModel.Diff.lcs_maximal eq as bs l l' h1 h2 h3
+
+/-- `_generate_move_edits` emits `Move(a, matchings[a])` for a child `a` of the source node exactly when `a` is matched
+    and not in the longest common subsequence of the two child lists under the matching -/
+theorem move_iff_not_in_lcs (S T : Tree) (m : List (Id × Id)) (u : List Id) (s t a : Id) (b : Option Id) :
+    (a, b) ∈ moveEdits S T m u s t ↔
+      a ∈ S.exprArgs s ∧ a ∉ lcs (fun l r => lookup m l == some r) (S.exprArgs s) (T.exprArgs t) ∧ a ∉ u ∧
+        b = lookup m a :=
+  SqlglotModel.Diff.move_iff_not_in_lcs S T m u s t a b
+
+/-! ### `diff()`: copies and hash caches -/
+section WrapperProps
+open SqlglotModel.Diff.Wrapper
+
+/-- today's `diff()` leaves its inputs' `_hash` caches as it found them or empty (both branches of the `finally` guard
+    after fix 6c26962), whatever the ChangeDistiller hashes meanwhile -/
+theorem diff_leaves_inputs_untouched (sw tw : Walk) (fs ft : Nat → Id) (hasM : Bool) (touched hash0 : Id → Bool)
+    (hfs : ∀ i, fs i ∉ objs sw ++ objs tw) (hft : ∀ i, ft i ∉ objs sw ++ objs tw) :
+    (∀ x ∈ objs sw ++ objs tw,
+      (runDiff today sw tw fs ft hasM touched hash0).hashAfter x =
+        if (needCopy sw tw && hasM) = true then hash0 x else false) ∧
+    (∀ y, y ∉ objs sw ++ objs tw →
+      y ∉ objs (runDiff today sw tw fs ft hasM touched hash0).seenS ++ objs (runDiff today sw tw fs ft hasM touched hash0).seenT →
+      (runDiff today sw tw fs ft hasM touched hash0).hashAfter y = hash0 y) :=
+  Wrapper.diff_leaves_inputs_untouched sw tw fs ft hasM touched hash0 hfs hft
+
+/-- the ChangeDistiller never sees an object reachable from both roots (or twice from one), and every object it sees has
+    its `.parent` inside the tree it is seen in -/
+theorem diff_copies_when_shared (sw tw : Walk) (fs ft : Nat → Id) (hasM : Bool) (touched hash0 : Id → Bool)
+    (hfsInj : ∀ i j, fs i = fs j → i = j) (hftInj : ∀ i j, ft i = ft j → i = j) (hdisj : ∀ i j, fs i ≠ ft j) :
+    (objs (runDiff today sw tw fs ft hasM touched hash0).seenS ++
+      objs (runDiff today sw tw fs ft hasM touched hash0).seenT).Nodup ∧
+    (ValidPos sw → ValidPos tw → (needCopy sw tw = false → Consistent sw ∧ Consistent tw) →
+      Consistent (runDiff today sw tw fs ft hasM touched hash0).seenS ∧
+      Consistent (runDiff today sw tw fs ft hasM touched hash0).seenT) :=
+  Wrapper.diff_copies_when_shared sw tw fs ft hasM touched hash0 hfsInj hftInj hdisj
+
+/-- two trees sharing object 2, attached to the source last: its single `.parent` pointer is the source root 0 -/
+def graftS : Walk := [⟨0, none, none⟩, ⟨2, some 0, some 0⟩]
+def graftT : Walk := [⟨10, none, none⟩, ⟨2, some 0, some 0⟩]
+
+/-- the seeded regression's shape: only the source is copied, hashes cleared unconditionally -/
+def onlySourceCopied : Policy := ⟨.whenShared, .whenSelfDup, .always⟩
+/-- `diff()` before fix 6c26962 -/
+def beforeHashFix : Policy := ⟨.whenShared, .whenShared, .whenNotCopied⟩
+
+/-- **why both trees must be copied**: with only the source copied the distiller receives a target containing an object
+    whose parent lies in the other tree (the spurious-Move regression); today's policy hands it two consistent trees -/
+theorem only_source_copied_witness :
+    consistentB (runDiff onlySourceCopied graftS graftT (· + 100) (· + 200) false (fun _ => false) (fun _ => false)).seenT = false ∧
+    consistentB (runDiff today graftS graftT (· + 100) (· + 200) false (fun _ => false) (fun _ => false)).seenT = true ∧
+    consistentB (runDiff today graftS graftT (· + 100) (· + 200) false (fun _ => false) (fun _ => false)).seenS = true := by
+  decide +kernel
+
+/-- **why the `finally` guard is `not (copy and matchings)`**: `diff(t, t)` without matchings under the old guard leaves
+    `_hash` cached on the input -/
+theorem stale_hash_witness :
+    (runDiff beforeHashFix [⟨0, none, none⟩] [⟨0, none, none⟩] (· + 100) (· + 200) false (fun _ => false) (fun _ => false)).hashAfter 0 = true ∧
+    (runDiff today [⟨0, none, none⟩] [⟨0, none, none⟩] (· + 100) (· + 200) false (fun _ => false) (fun _ => false)).hashAfter 0 = false := by
+  decide +kernel
+
+/-- the freshness hypotheses are satisfiable -/
+example : ∀ i : Nat, i + 100 ∉ objs graftS ++ objs graftT := by
+  intro i; simp [objs, graftS, graftT]
+
+/-- the copy condition, which trees are copied and the `finally` guard, as extracted from `diff()` on this run, are the
+    ones the two theorems are about -/
+theorem generated_wrapper_policy_ok : SqlglotModel.Generated.C20.wrapperPolicy = Wrapper.today := by decide +kernel
+
+end WrapperProps
+
+/-- the source compares the Identifier children of a kept, non-identical pair (fix f25f43a): the hypothesis `cmpIdents`
+    of `delta_empty_imp_equal` holds for the parameters the driver runs with -/
+theorem generated_compares_ignored_leaves : SqlglotModel.Generated.C20.comparesIgnoredLeaves = true := by decide +kernel
 
 /-- constants re-extracted from sqlglot/diff.py on this run satisfy what the copy theorems need:
     the high leaf-similarity threshold and the default `f` are at most 1, and Identifier is the only ignored type -/
